@@ -7,16 +7,22 @@
   shows the code raises ValueError otherwise):
 
   * `C10_width`, `C10_offset`: `.width` / `width_at_offset(n)` are the column sums.
-  * `C10_slice`: the per-character column-interval statement of `width_aware_slice(a:b)` (`SliceRel`):
-    walking the characters of `f` with their column intervals [col, col+w), a character wholly inside
-    [a, b) is kept with its formatting, any other character of non-zero width is replaced by as many spaces
-    (with ITS formatting) as it has columns inside the range (one for a double-width character cut by an edge,
-    none for a character outside), and a zero-width character is kept (only if it sits inside [a, b]) or
-    dropped - never invented, moved or restyled. Holds for all `a b : Nat` (no `a ≤ b ≤ W+2` needed).
+  * The slicing clause is the per-character column-interval relation `SliceRel u strict a b`: walking the
+    characters of `f` with their column intervals [col, col+w), a character wholly inside [a, b) is kept with its
+    formatting; any other character of non-zero width is replaced by as many spaces (with ITS formatting) as it has
+    columns inside the range (one for a double-width character cut by an edge, none for a character outside); a
+    zero-width character is never invented, moved or restyled, may only be kept when its column is in [a, b], and
+    - `strict = true` - MUST be kept when its column is strictly inside (a, b) (at col = a or col = b either
+    outcome is allowed: it combines with a character that may lie outside).
+    - `C10_slice_full_statement` (strict, every run layout) is FALSE for the code: finding D30, `C10_D30_witness`
+      (a zero-width character that starts a later, right-cut run is dropped).
+    - `C10_slice_partial`: the strict statement on the complement of the footprint (`D30Free`; sufficient:
+      no run after the first begins with a zero-width character, `D30Free_of_tail`).
+    - `C10_slice_columns_partial`: the non-strict statement for EVERY run layout, all `a b : Nat`.
   * `C10_slice_width`: hence the width of the result is the number of requested columns that exist.
   * `C10_cols : C10_cols_full_statement`: the flattened column view of DESIGN section 3 (`cols`: a double-width
     character fills a left and a right column, zero-width characters none): the columns of the result are columns
-    a..b-1 of `f` with an orphaned half replaced by a space of the same formatting. Derived from `SliceRel`.
+    a..b-1 of `f` with an orphaned half replaced by a space of the same formatting. Derived from `SliceRel` (non-strict: it does not depend on zero-width characters).
 -/
 import Curtsies.Proofs.Width
 namespace Curtsies
@@ -28,22 +34,25 @@ def cellsWidth (u : UEnv) (l : List Cell) : Int := colWidth u (l.map Prod.fst)
 
 def colOverlap (a b col w : Int) : Nat := (min (col + w) b - max col a).toNat
 
-inductive SliceRel (u : UEnv) (a b : Int) : Int → List Cell → List Cell → Prop
-  | nil (col : Int) : SliceRel u a b col [] []
+inductive SliceRel (u : UEnv) (strict : Bool) (a b : Int) : Int → List Cell → List Cell → Prop
+  | nil (col : Int) : SliceRel u strict a b col [] []
   | zdrop {col : Int} {x : Cell} {rest out : List Cell} :
-      u.wcwidth x.1 = 0 → SliceRel u a b col rest out → SliceRel u a b col (x :: rest) out
+      u.wcwidth x.1 = 0 → (strict = true → col ≤ a ∨ b ≤ col) →
+      SliceRel u strict a b col rest out → SliceRel u strict a b col (x :: rest) out
   | zkeep {col : Int} {x : Cell} {rest out : List Cell} :
-      u.wcwidth x.1 = 0 → a ≤ col → col ≤ b → SliceRel u a b col rest out →
-      SliceRel u a b col (x :: rest) (x :: out)
+      u.wcwidth x.1 = 0 → a ≤ col → col ≤ b → SliceRel u strict a b col rest out →
+      SliceRel u strict a b col (x :: rest) (x :: out)
   | inside {col : Int} {x : Cell} {rest out : List Cell} :
       0 < u.wcwidth x.1 → a ≤ col → col + u.wcwidth x.1 ≤ b →
-      SliceRel u a b (col + u.wcwidth x.1) rest out → SliceRel u a b col (x :: rest) (x :: out)
+      SliceRel u strict a b (col + u.wcwidth x.1) rest out → SliceRel u strict a b col (x :: rest) (x :: out)
   | cut {col : Int} {x : Cell} {rest out : List Cell} :
       0 < u.wcwidth x.1 → ¬ (a ≤ col ∧ col + u.wcwidth x.1 ≤ b) →
-      SliceRel u a b (col + u.wcwidth x.1) rest out →
-      SliceRel u a b col (x :: rest) (List.replicate (colOverlap a b col (u.wcwidth x.1)) (' ', x.2) ++ out)
+      SliceRel u strict a b (col + u.wcwidth x.1) rest out →
+      SliceRel u strict a b col (x :: rest) (List.replicate (colOverlap a b col (u.wcwidth x.1)) (' ', x.2) ++ out)
 
 /-! ### proofs -/
+variable {strict : Bool}
+
 private theorem intervalOverlap_cut (cs w a b col0 : Int) (hcs : 0 ≤ cs) (hw : w = 1 ∨ w = 2) :
     ∃ n, intervalOverlap cs (cs + w) (max 0 (a - col0)) (b - col0) = .ok n ∧
       n.toNat = colOverlap a b (col0 + cs) w := by
@@ -59,14 +68,16 @@ private theorem intervalOverlap_cut (cs w a b col0 : Int) (hcs : 0 ≤ cs) (hw :
         · exfalso; omega
 
 private theorem wasLoop_rel (u : UEnv) (atts : Atts) (a b col0 : Int) (s : Text) (cs : Int)
-    (hs : u.sane s) (hcs : 0 ≤ cs) :
+    (hs : u.sane s) (hcs : 0 ≤ cs)
+    (hlead : strict = true → a < col0 → cs = 0 → ∀ ch, s.head? = some ch → u.wcwidth ch ≠ 0) :
     ∃ r, wasLoop u (max 0 (a - col0)) (b - col0) cs s = .ok r ∧
-      SliceRel u a b (col0 + cs) (s.map fun ch => (ch, atts)) (r.map fun ch => (ch, atts)) := by
+      SliceRel u strict a b (col0 + cs) (s.map fun ch => (ch, atts)) (r.map fun ch => (ch, atts)) := by
   induction s generalizing cs with
   | nil => exact ⟨[], rfl, .nil _⟩
   | cons c rest ih =>
     have ⟨hw, hrest⟩ := UEnv.sane_cons hs
     obtain ⟨r, hr, hrel⟩ := ih (cs + u.wcwidth c) hrest (by omega)
+      (fun hst ha h0 => absurd (by omega : u.wcwidth c = 0) (hlead hst ha (by omega) c rfl))
     have hcol : col0 + (cs + u.wcwidth c) = col0 + cs + u.wcwidth c := by omega
     rw [hcol] at hrel
     unfold wasLoop
@@ -76,7 +87,10 @@ private theorem wasLoop_rel (u : UEnv) (atts : Atts) (a b col0 : Int) (s : Text)
       have hz : u.wcwidth c = 0 := by omega
       rw [hz] at hrel
       simp only [Int.add_zero] at hrel
-      exact ⟨r, hr, .zdrop hz hrel⟩
+      refine ⟨r, hr, .zdrop hz (fun hst => ?_) hrel⟩
+      by_cases ha : a < col0
+      · exact absurd hz (hlead hst ha (by omega) c rfl)
+      · left; omega
     · rw [if_neg h1]
       by_cases h2 : cs ≥ max 0 (a - col0) ∧ cs + u.wcwidth c ≤ b - col0
       · rw [if_pos h2, hr]
@@ -96,7 +110,7 @@ private theorem wasLoop_rel (u : UEnv) (atts : Atts) (a b col0 : Int) (s : Text)
           refine ⟨r, by simp [bind, Except.bind, pure, Except.pure], ?_⟩
           rw [hz] at hrel
           simp only [Int.add_zero] at hrel
-          exact .zdrop hz hrel
+          exact .zdrop hz (fun _ => by omega) hrel
         · obtain ⟨n, hn, hn2⟩ := intervalOverlap_cut cs (u.wcwidth c) a b col0 hcs (by omega)
           rw [hn, hr]
           refine ⟨List.replicate n.toNat ' ' ++ r, by simp [bind, Except.bind, pure, Except.pure], ?_⟩
@@ -116,7 +130,7 @@ private theorem chunk_cells_fst (c : Chunk) : c.cells.map Prod.fst = c.s := by
 
 theorem SliceRel.all_inside (u : UEnv) (a b : Int) (l : List Cell) (col : Int)
     (hs : u.sane (l.map Prod.fst)) (h1 : a ≤ col) (h2 : col + cellsWidth u l ≤ b) :
-    SliceRel u a b col l l := by
+    SliceRel u strict a b col l l := by
   induction l generalizing col with
   | nil => exact .nil _
   | cons x rest ih =>
@@ -131,7 +145,7 @@ theorem SliceRel.all_inside (u : UEnv) (a b : Int) (l : List Cell) (col : Int)
 
 theorem SliceRel.all_outside (u : UEnv) (a b : Int) (l : List Cell) (col : Int)
     (hs : u.sane (l.map Prod.fst)) (h : col + cellsWidth u l ≤ a ∨ b ≤ col) :
-    SliceRel u a b col l [] := by
+    SliceRel u strict a b col l [] := by
   induction l generalizing col with
   | nil => exact .nil _
   | cons x rest ih =>
@@ -140,7 +154,7 @@ theorem SliceRel.all_outside (u : UEnv) (a b : Int) (l : List Cell) (col : Int)
     have hn : 0 ≤ cellsWidth u rest := colWidth_nonneg hrest
     simp only [cellsWidth_cons] at h
     by_cases hz : u.wcwidth x.1 = 0
-    · exact .zdrop hz (ih col hrest (by omega))
+    · exact .zdrop hz (fun _ => by omega) (ih col hrest (by omega))
     · have h0 : colOverlap a b col (u.wcwidth x.1) = 0 := by unfold colOverlap; omega
       have := SliceRel.cut (u := u) (a := a) (b := b) (col := col) (x := x) (by omega) (by omega)
         (ih (col + u.wcwidth x.1) hrest (by omega))
@@ -148,13 +162,13 @@ theorem SliceRel.all_outside (u : UEnv) (a b : Int) (l : List Cell) (col : Int)
       simpa using this
 
 theorem SliceRel.append {u : UEnv} {a b : Int} {l1 o1 : List Cell} {col : Int}
-    (h1 : SliceRel u a b col l1 o1) {l2 o2 : List Cell}
-    (h2 : SliceRel u a b (col + cellsWidth u l1) l2 o2) : SliceRel u a b col (l1 ++ l2) (o1 ++ o2) := by
+    (h1 : SliceRel u strict a b col l1 o1) {l2 o2 : List Cell}
+    (h2 : SliceRel u strict a b (col + cellsWidth u l1) l2 o2) : SliceRel u strict a b col (l1 ++ l2) (o1 ++ o2) := by
   induction h1 with
   | nil col => simpa using h2
-  | zdrop hz _ ih =>
+  | zdrop hz hb _ ih =>
     simp only [cellsWidth_cons, hz, Int.zero_add] at h2
-    exact .zdrop hz (ih h2)
+    exact .zdrop hz hb (ih h2)
   | zkeep hz ha hb _ ih =>
     simp only [cellsWidth_cons, hz, Int.zero_add] at h2
     exact .zkeep hz ha hb (ih h2)
@@ -166,10 +180,21 @@ theorem SliceRel.append {u : UEnv} {a b : Int} {l1 o1 : List Cell} {col : Int}
     rw [List.append_assoc]
     exact .cut hw hn (ih h2)
 
+/-- The complement of the footprint of finding D30: no run that starts strictly inside the requested columns
+    `(a, b)` and is cut by the right edge (`b` before its end) begins with a zero-width character.
+    `counter` is the column at which the first run of the list starts. -/
+def D30Free (u : UEnv) (a b : Int) : Int → FmtStr → Prop
+  | _, [] => True
+  | counter, c :: rest =>
+    (a < counter ∧ counter < b ∧ b < counter + colWidth u c.s →
+      ∀ ch, c.s.head? = some ch → u.wcwidth ch ≠ 0) ∧
+    D30Free u a b (counter + colWidth u c.s) rest
+
 private theorem wasChunkLoop_rel (u : UEnv) (start stop : Int) (f : FmtStr) (counter : Int)
-    (hs : u.sane (text f)) (hc : 0 ≤ counter) :
+    (hs : u.sane (text f)) (hc : 0 ≤ counter)
+    (hfree : strict = true → D30Free u start stop counter f) :
     ∃ parts, wasChunkLoop u start stop counter f = .ok parts ∧
-      SliceRel u start stop counter (cells f) (cells parts) := by
+      SliceRel u strict start stop counter (cells f) (cells parts) := by
   induction f generalizing counter with
   | nil => exact ⟨[], rfl, .nil _⟩
   | cons c rest ih =>
@@ -180,7 +205,7 @@ private theorem wasChunkLoop_rel (u : UEnv) (start stop : Int) (f : FmtStr) (cou
     have hcwid : cellsWidth u c.cells = colWidth u c.s := by simp [cellsWidth, chunk_cells_fst]
     -- the part contributed by this chunk
     have hpart : ∃ part, wasChunkPart u start stop counter c (colWidth u c.s) = .ok part ∧
-        SliceRel u start stop counter c.cells (cells part) := by
+        SliceRel u strict start stop counter c.cells (cells part) := by
       unfold wasChunkPart
       simp only []
       by_cases hcond : start < counter + colWidth u c.s ∧ stop > counter
@@ -191,7 +216,8 @@ private theorem wasChunkLoop_rel (u : UEnv) (start stop : Int) (f : FmtStr) (cou
           simp only [cells_cons, cells_nil, List.append_nil]
           exact SliceRel.all_inside u _ _ _ _ hcs (by omega) (by rw [hcwid]; omega)
         · rw [if_neg hwhole]
-          obtain ⟨r, hr, hrel⟩ := wasLoop_rel u c.atts start stop counter c.s 0 h1 (Int.le_refl 0)
+          obtain ⟨r, hr, hrel⟩ := wasLoop_rel (strict := strict) u c.atts start stop counter c.s 0 h1
+            (Int.le_refl 0) (fun hst ha _ => (hfree hst).1 ⟨ha, by omega, by omega⟩)
           refine ⟨[⟨r, c.atts⟩], by simp [widthAwareSliceStr, hr, bind, Except.bind, pure, Except.pure], ?_⟩
           simp only [cells_cons, cells_nil, List.append_nil, Int.add_zero] at hrel ⊢
           exact hrel
@@ -204,14 +230,14 @@ private theorem wasChunkLoop_rel (u : UEnv) (start stop : Int) (f : FmtStr) (cou
     by_cases hb : stop < counter + colWidth u c.s
     · rw [if_pos hb]
       refine ⟨part, rfl, ?_⟩
-      have hout : SliceRel u start stop (counter + cellsWidth u c.cells) (cells rest) [] := by
+      have hout : SliceRel u strict start stop (counter + cellsWidth u c.cells) (cells rest) [] := by
         apply SliceRel.all_outside
         · rw [← text_eq_cells]; exact h2
         · rw [hcwid]; omega
       have := SliceRel.append hprel hout
       simpa using this
     · rw [if_neg hb]
-      obtain ⟨parts, hps, hrel⟩ := ih (counter + colWidth u c.s) h2 (by omega)
+      obtain ⟨parts, hps, hrel⟩ := ih (counter + colWidth u c.s) h2 (by omega) (fun hst => (hfree hst).2)
       rw [hps]
       refine ⟨part ++ parts, rfl, ?_⟩
       rw [cells_cons, cells_append]
@@ -227,12 +253,12 @@ private theorem cellsWidth_replicate (u : UEnv) (hsp : u.wcwidth ' ' = 1) (n : N
   | zero => simp
   | succ k ih => simp [List.replicate_succ, ih, hsp]; omega
 
-theorem SliceRel.width {u : UEnv} {a b col : Int} {l out : List Cell} (h : SliceRel u a b col l out)
+theorem SliceRel.width {u : UEnv} {a b col : Int} {l out : List Cell} (h : SliceRel u strict a b col l out)
     (hs : u.sane (l.map Prod.fst)) (hsp : u.wcwidth ' ' = 1) (hab : a ≤ b) :
     cellsWidth u out = max 0 (min b (col + cellsWidth u l) - max a col) := by
   induction h with
   | nil col => simp; omega
-  | zdrop hz _ ih =>
+  | zdrop hz _ _ ih =>
     simp only [List.map_cons] at hs
     have := ih (UEnv.sane_cons hs).2
     simp only [cellsWidth_cons, hz]; omega
@@ -254,11 +280,11 @@ theorem SliceRel.width {u : UEnv} {a b col : Int} {l out : List Cell} (h : Slice
     omega
 
 /-- every character of the result is a character of the source or a replacement space -/
-theorem SliceRel.sane_out {u : UEnv} {a b col : Int} {l out : List Cell} (h : SliceRel u a b col l out)
+theorem SliceRel.sane_out {u : UEnv} {a b col : Int} {l out : List Cell} (h : SliceRel u strict a b col l out)
     (hs : u.sane (l.map Prod.fst)) (hsp : u.wcwidth ' ' = 1) : u.sane (out.map Prod.fst) := by
   induction h with
   | nil col => exact hs
-  | zdrop hz _ ih => simp only [List.map_cons] at hs; exact ih (UEnv.sane_cons hs).2
+  | zdrop hz _ _ ih => simp only [List.map_cons] at hs; exact ih (UEnv.sane_cons hs).2
   | zkeep hz ha hb _ ih =>
     simp only [List.map_cons] at hs ⊢
     intro c hc
@@ -315,12 +341,11 @@ theorem C10_guard (u : UEnv) (f : FmtStr) (idx : Index) (h : ∃ c ∈ text f, u
     widthAwareSlice u f idx = .error .valueError := by
   simp [widthAwareSlice, wcswidth, wcswidthLoop_neg u _ 0 h]
 
-/-- `f.width_aware_slice(a:b)`: succeeds and is related to `f` by the per-character column-interval
-    statement `SliceRel`, columns counted from 0. -/
-theorem C10_slice (u : UEnv) (f : FmtStr) (a b : Nat) (hs : u.sane (text f)) :
+private theorem slice_rel (u : UEnv) (f : FmtStr) (a b : Nat) (hs : u.sane (text f))
+    (hfree : strict = true → D30Free u a b 0 f) :
     ∃ r, widthAwareSlice u f (.slice (some a) (some b) false) = .ok r ∧
-      SliceRel u a b 0 (cells f) (cells r) := by
-  obtain ⟨parts, hp, hrel⟩ := wasChunkLoop_rel u a b f 0 hs (Int.le_refl 0)
+      SliceRel u strict a b 0 (cells f) (cells r) := by
+  obtain ⟨parts, hp, hrel⟩ := wasChunkLoop_rel (strict := strict) u a b f 0 hs (Int.le_refl 0) hfree
   have hw : wcswidth u (text f) ≠ -1 := by
     rw [wcswidth_eq hs]; have := colWidth_nonneg hs; omega
   refine ⟨if parts.isEmpty then emptyFmt else parts, ?_, ?_⟩
@@ -336,12 +361,94 @@ theorem C10_slice (u : UEnv) (f : FmtStr) (a b : Nat) (hs : u.sane (text f)) :
       exact hrel
     · rw [if_neg he]; exact hrel
 
+/-- FULL statement of the slicing clause (`strict = true`: a zero-width character strictly inside the requested
+    columns must be kept). It is FALSE for the code - finding D30, `C10_D30_witness`. -/
+def C10_slice_full_statement : Prop :=
+  ∀ (u : UEnv) (f : FmtStr) (a b : Nat), u.sane (text f) →
+    ∃ r, widthAwareSlice u f (.slice (some a) (some b) false) = .ok r ∧
+      SliceRel u true a b 0 (cells f) (cells r)
+
+/-- The full statement holds on the complement of the footprint of D30 (`D30Free`: no run that starts strictly
+    inside the requested columns and is cut by the right edge begins with a zero-width character). -/
+theorem C10_slice_partial (u : UEnv) (f : FmtStr) (a b : Nat) (hs : u.sane (text f))
+    (hfree : D30Free u a b 0 f) :
+    ∃ r, widthAwareSlice u f (.slice (some a) (some b) false) = .ok r ∧
+      SliceRel u true a b 0 (cells f) (cells r) := slice_rel u f a b hs (fun _ => hfree)
+
+/-- Everything except the must-keep rule for zero-width characters holds for EVERY run layout (`strict = false`:
+    a zero-width character may be kept, if it sits inside [a, b], or dropped): columns, formatting, replacement
+    spaces, order, nothing invented. -/
+theorem C10_slice_columns_partial (u : UEnv) (f : FmtStr) (a b : Nat) (hs : u.sane (text f)) :
+    ∃ r, widthAwareSlice u f (.slice (some a) (some b) false) = .ok r ∧
+      SliceRel u false a b 0 (cells f) (cells r) := slice_rel u f a b hs (fun h => by cases h)
+
+/-- A simple sufficient condition for `D30Free`: no run after the first begins with a zero-width character. -/
+theorem D30Free_of_no_leading_zw (u : UEnv) (a b : Int) (f : FmtStr) (counter : Int)
+    (h : ∀ c ∈ f, ∀ ch, c.s.head? = some ch → u.wcwidth ch ≠ 0) : D30Free u a b counter f := by
+  induction f generalizing counter with
+  | nil => trivial
+  | cons c rest ih => exact ⟨fun _ => h c (by simp), ih _ (fun d hd => h d (by simp [hd]))⟩
+
+theorem D30Free_of_tail (u : UEnv) (a : Nat) (b : Int) (f : FmtStr)
+    (h : ∀ c ∈ f.tail, ∀ ch, c.s.head? = some ch → u.wcwidth ch ≠ 0) : D30Free u a b 0 f := by
+  cases f with
+  | nil => trivial
+  | cons c rest => exact ⟨fun hc => by omega, D30Free_of_no_leading_zw u a b rest _ h⟩
+
+/-- one-step inversion of `SliceRel` -/
+theorem SliceRel.inv_cons {u : UEnv} {a b col : Int} {x : Cell} {rest out : List Cell}
+    (h : SliceRel u strict a b col (x :: rest) out) :
+    (u.wcwidth x.1 = 0 ∧ (strict = true → col ≤ a ∨ b ≤ col) ∧ SliceRel u strict a b col rest out) ∨
+    (u.wcwidth x.1 = 0 ∧ ∃ out', out = x :: out' ∧ SliceRel u strict a b col rest out') ∨
+    (0 < u.wcwidth x.1 ∧ ∃ out', out = x :: out' ∧ SliceRel u strict a b (col + u.wcwidth x.1) rest out') ∨
+    (0 < u.wcwidth x.1 ∧ ¬ (a ≤ col ∧ col + u.wcwidth x.1 ≤ b)) := by
+  cases h with
+  | zdrop hz hb hr => exact Or.inl ⟨hz, hb, hr⟩
+  | zkeep hz _ _ hr => exact Or.inr (Or.inl ⟨hz, _, rfl, hr⟩)
+  | inside hw _ _ hr => exact Or.inr (Or.inr (Or.inl ⟨hw, _, rfl, hr⟩))
+  | cut hw hn _ => exact Or.inr (Or.inr (Or.inr ⟨hw, hn⟩))
+
+/-- Finding D30, machine-checked on the model (the harness replays the same input on the real code each run):
+    `fmtstr('a') + red('\u0301bcc')` sliced to columns 0..2 loses the combining character although it sits
+    strictly inside the requested columns (column 1); the same text in one run keeps it. -/
+theorem C10_D30_witness : ¬ C10_slice_full_statement := by
+  intro hfull
+  have hs : exEnv.sane (text [⟨['a'], {}⟩, ⟨['́', 'b', 'c', 'c'], {fg := some 1}⟩]) := by
+    intro c hc
+    simp [text] at hc
+    rcases hc with rfl | rfl | rfl | rfl <;> decide
+  obtain ⟨r, hr, hrel⟩ := hfull exEnv [⟨['a'], {}⟩, ⟨['́', 'b', 'c', 'c'], {fg := some 1}⟩] 0 3 hs
+  have hval : widthAwareSlice exEnv [⟨['a'], {}⟩, ⟨['́', 'b', 'c', 'c'], {fg := some 1}⟩]
+      (.slice (some ((0 : Nat) : Int)) (some ((3 : Nat) : Int)) false)
+      = .ok [⟨['a'], {}⟩, ⟨['b', 'c'], {fg := some 1}⟩] := (isOk_iff _ _).mp (by decide +kernel)
+  rw [hval] at hr
+  injection hr with hr
+  subst hr
+  have hc : cells [⟨['a'], {}⟩, ⟨['́', 'b', 'c', 'c'], {fg := some 1}⟩]
+      = [('a', {}), ('́', {fg := some 1}), ('b', {fg := some 1}), ('c', {fg := some 1}), ('c', {fg := some 1})] := rfl
+  have hc2 : cells [⟨['a'], {}⟩, ⟨['b', 'c'], {fg := some 1}⟩]
+      = [('a', {}), ('b', {fg := some 1}), ('c', {fg := some 1})] := rfl
+  rw [hc, hc2] at hrel
+  have wa : exEnv.wcwidth 'a' = 1 := by decide
+  have wz : exEnv.wcwidth '́' = 0 := by decide
+  rcases hrel.inv_cons with ⟨h0, _⟩ | ⟨h0, _⟩ | ⟨_, out', ho, h1⟩ | ⟨_, hn⟩
+  · simp only [wa] at h0; omega
+  · simp only [wa] at h0; omega
+  · simp only [wa, List.cons.injEq, true_and] at ho h1
+    subst ho
+    rcases h1.inv_cons with ⟨_, hb, _⟩ | ⟨_, out'', ho2, _⟩ | ⟨hw, _⟩ | ⟨hw, _⟩
+    · have := hb rfl; omega
+    · simp at ho2
+    · simp only [wz] at hw; omega
+    · simp only [wz] at hw; omega
+  · simp only [wa] at hn; omega
+
 /-- The width of the slice is the number of requested columns that exist (`W` = width of `f`). -/
 theorem C10_slice_width (u : UEnv) (f : FmtStr) (a b : Nat) (hs : u.sane (text f))
     (hsp : u.wcwidth ' ' = 1) (hab : a ≤ b) :
     ∃ r, widthAwareSlice u f (.slice (some a) (some b) false) = .ok r ∧
       fmtWidth u r = .ok (min (b : Int) (colWidth u (text f)) - min (a : Int) (colWidth u (text f))) := by
-  obtain ⟨r, hr, hrel⟩ := C10_slice u f a b hs
+  obtain ⟨r, hr, hrel⟩ := C10_slice_columns_partial u f a b hs
   refine ⟨r, hr, ?_⟩
   have hsf : u.sane ((cells f).map Prod.fst) := by rw [← text_eq_cells]; exact hs
   have hw := hrel.width hsf hsp (by omega)
@@ -355,6 +462,18 @@ theorem C10_slice_width (u : UEnv) (f : FmtStr) (a b : Nat) (hs : u.sane (text f
   rw [fmtWidth_eq hsr, ← hWr, hw, hW]
   congr 1
   omega
+
+/-- non-vacuity of `C10_slice_partial`: a second run that begins with a narrow character -/
+example : exEnv.sane (text [⟨['a', 'Ｅ'], {fg := some 1}⟩, ⟨['b', '́', 'c'], {bold := some true}⟩]) ∧
+    D30Free exEnv ((1 : Nat) : Int) 4 0 [⟨['a', 'Ｅ'], {fg := some 1}⟩, ⟨['b', '́', 'c'], {bold := some true}⟩] := by
+  refine ⟨?_, D30Free_of_tail _ _ _ _ ?_⟩
+  · intro c hc
+    simp [text] at hc
+    rcases hc with rfl | rfl | rfl | rfl | rfl <;> decide
+  · intro c hc ch hch
+    simp at hc; subst hc
+    simp at hch; subst hch
+    decide
 
 /-! ### non-vacuity: a three-run string (one run empty) with wide and combining characters -/
 
@@ -423,11 +542,11 @@ private theorem cols_replicate_space (u : UEnv) (hsp : u.wcwidth ' ' = 1) (n : N
   | succ k ih => simp [List.replicate_succ, cols, hsp, ih]
 
 theorem SliceRel.window {u : UEnv} {a b : Nat} {colI : Int} {l out : List Cell}
-    (h : SliceRel u a b colI l out) (hsp : u.wcwidth ' ' = 1) (hs : u.sane (l.map Prod.fst)) :
+    (h : SliceRel u strict a b colI l out) (hsp : u.wcwidth ' ' = 1) (hs : u.sane (l.map Prod.fst)) :
     ∀ col : Nat, colI = col → cols u out = window u a b col l := by
   induction h with
   | nil col => intro c _; rfl
-  | @zdrop colI x rest out hz _ ih =>
+  | @zdrop colI x rest out hz _ _ ih =>
     intro col hc
     simp only [List.map_cons] at hs
     obtain ⟨c, tt⟩ := x
@@ -639,7 +758,7 @@ private theorem window_eq (u : UEnv) (a b : Nat) (hab : a ≤ b) (l : List Cell)
     character replaced by a space with that character's formatting. -/
 theorem C10_cols : C10_cols_full_statement := by
   intro u f a b hs hsp hab
-  obtain ⟨r, hr, hrel⟩ := C10_slice u f a b hs
+  obtain ⟨r, hr, hrel⟩ := C10_slice_columns_partial u f a b hs
   refine ⟨r, hr, ?_⟩
   have hsf : u.sane ((cells f).map Prod.fst) := by rw [← text_eq_cells]; exact hs
   rw [hrel.window hsp hsf 0 rfl, window_eq u a b hab (cells f) 0]
